@@ -23,6 +23,7 @@ type FnIndex struct {
 	closureOf map[*ssa.Function]*ssa.MakeClosure
 	stores    map[ssa.Value][]*ssa.Store
 	condCache map[*ssa.Function][]ssa.Value
+	listSinks map[*ssa.Alloc]bool // the lists of messages the function reports from (set by engFn.errList)
 	loops     map[*ssa.Function][]*Loop
 	edgeDom   map[edgeKey]map[*ssa.BasicBlock]bool
 	built     bool
@@ -3631,4 +3632,26 @@ func (x *FnIndex) isFieldLoadAny(v ssa.Value, typ string) (ssa.Value, bool) {
 		}
 	}
 	return nil, false
+}
+
+// readsList: arg is a read of the list variable e -- of e itself, also when e was just assigned a copy of
+// another list (the result of a helper that builds its own), or of a variable e is a copy of.
+func (x *FnIndex) readsList(arg ssa.Value, e *ssa.Alloc) bool {
+	if e == nil {
+		return false
+	}
+	if x.Cell(arg) == e || x.directCell(x.lastLoad(arg)) == e {
+		return true
+	}
+	// the variable read is e, or another list the function reports from (one per way through it), whatever
+	// it was assigned from
+	if u, ok := arg.(*ssa.UnOp); ok && u.Op == token.MUL {
+		if al, isAl := x.ResolveAddr(u.X).(*ssa.Alloc); isAl && (al == e || x.listSinks[al]) {
+			return true
+		}
+	}
+	if dc := x.directCell(x.lastLoad(arg)); dc != nil && x.listSinks[dc] {
+		return true
+	}
+	return false
 }
